@@ -70,13 +70,16 @@ def classify_exception(ctx, e, where="workload"):
 def cold_start_permutations(prop, tier, recorded, ctx, max_orders=9):
     """The first case of every kind again, each ordering in a *fresh interpreter*: state that is set up lazily by whichever
     public function happens to run first (a table built on first use, a default captured at first call) must not matter."""
-    first = {}
+    first, later = {}, []
     for gname, a, k in recorded:
+        try:
+            c = [gname, _enc(a), _enc(k)]
+        except TypeError:
+            continue
         if gname not in first:
-            try:
-                first[gname] = [gname, _enc(a), _enc(k)]
-            except TypeError:
-                continue
+            first[gname] = c
+        elif sum(1 for x in later if x[0] == gname) < 2:
+            later.append(c)                    # two more cases of every kind, run after the first ones (they see the other environments too)
     cases = list(first.values())[:12]
     if len(cases) < 2:
         return
@@ -87,10 +90,23 @@ def cold_start_permutations(prop, tier, recorded, ctx, max_orders=9):
         for i, order in enumerate(orders):
             cf, of = os.path.join(tmp, f"c{i}.json"), os.path.join(tmp, f"o{i}.json")
             with open(cf, "w") as f:
-                json.dump(order, f)
+                json.dump(order + later[:24], f)
+            # ... and each fresh interpreter in another environment: optimised mode (assert statements and __debug__ blocks are
+            # gone: validation must not live in them), another local time zone (calendar code must not depend on it), another
+            # string-hash seed (set / dict iteration orders change)
+            env = dict(os.environ, PYTHONHASHSEED=str(1 + 7919 * i))
+            flags = []
+            label = "hashseed"
+            if i % 3 == 1:
+                flags, label = ["-O"], "python -O"
+            elif i % 3 == 2:
+                env["TZ"] = ("Pacific/Kiritimati", "America/St_Johns", "Asia/Kathmandu")[(i // 3) % 3]
+                label = "TZ=" + env["TZ"]
+            envs = ctx.extra.setdefault("cold_start_environments", {})
+            envs[label] = envs.get(label, 0) + 1
             try:
-                p = subprocess.run([sys.executable, "-X", "dev", "-W", "ignore", "-m", "spverif", prop, tier, "--cases", cf, "--out", of],
-                                   capture_output=True, text=True, cwd=VERIF_ROOT, timeout=900)
+                p = subprocess.run([sys.executable, "-X", "dev", "-W", "ignore"] + flags + ["-m", "spverif", prop, tier, "--cases", cf, "--out", of],
+                                   capture_output=True, text=True, cwd=VERIF_ROOT, timeout=900, env=env)
             except subprocess.TimeoutExpired:
                 ctx.inconc("cold-start permutation timed out")
                 continue
@@ -106,6 +122,42 @@ def cold_start_permutations(prop, tier, recorded, ctx, max_orders=9):
             ctx.merge(part)
             ctx.extra["cold_start_processes"] = ctx.extra.get("cold_start_processes", 0) + 1
             ctx.extra["cold_start_cases"] = ctx.extra.get("cold_start_cases", 0) + len(order)
+    finally:
+        shutil.rmtree(tmp, ignore_errors=True)
+
+
+ENVPASS = {"flags": ["-O"], "TZ": "America/St_Johns", "PYTHONHASHSEED": "4242", "LC_ALL": "C", "PYTHONUTF8": "0"}
+
+
+def environment_pass(prop, seed, ctx):
+    """The quick workload once more (random parts at a third of their size, another seed) in an interpreter that differs from
+    the one the test-suite and the main pass use in everything a library must not depend on: optimised mode (`python -O`:
+    assert statements and `if __debug__` blocks are removed), a local time zone with a 3.5 h offset, another string-hash
+    seed, the C locale with UTF-8 mode off.  Results are merged like those of a shard; witnesses carry the environment."""
+    tmp = tempfile.mkdtemp(prefix=f"spv-env-{prop}-")
+    label = "python -O, TZ=%s, PYTHONHASHSEED=%s, LC_ALL=C" % (ENVPASS["TZ"], ENVPASS["PYTHONHASHSEED"])
+    try:
+        out = os.path.join(tmp, "env.json")
+        env = dict(os.environ, TZ=ENVPASS["TZ"], PYTHONHASHSEED=ENVPASS["PYTHONHASHSEED"], LC_ALL=ENVPASS["LC_ALL"], PYTHONUTF8=ENVPASS["PYTHONUTF8"],
+                   SPV_ENVPASS=label, SPV_NO_COLD="1", SPV_NO_REACH="1", SPV_QUICK_SCALE="0.34", VERIF_SEED=str(seed + 1_000_003))
+        env.pop("LANG", None)
+        try:
+            p = subprocess.run([sys.executable, "-X", "dev", "-W", "ignore"] + ENVPASS["flags"] + ["-m", "spverif", prop, "quick", "--shard", "0/1", "--out", out],
+                               capture_output=True, text=True, cwd=VERIF_ROOT, env=env, timeout=QUICK_TIMEOUT_S)
+        except subprocess.TimeoutExpired:
+            ctx.inconc("environment pass timed out")
+            return
+        if p.returncode != 0 or not os.path.exists(out):
+            ctx.inconc(f"environment pass exited {p.returncode}: {(p.stdout + p.stderr)[-600:]!r}")
+            return
+        with open(out) as f:
+            part = json.load(f)
+        part["extra"] = {}
+        ctx.extra["environment_pass"] = {"environment": label, "evaluations": part.get("evaluations", 0), "violation_signatures": sorted(part.get("violations", {}))[:20]}
+        for reason in part.pop("inconclusive", []):
+            ctx.inconc("environment pass: " + reason)
+        part["inconclusive"] = []
+        ctx.merge(part)
     finally:
         shutil.rmtree(tmp, ignore_errors=True)
 
@@ -305,6 +357,8 @@ def main(argv=None) -> int:
                     ctx.merge(json.load(f))
         finally:
             shutil.rmtree(tmp, ignore_errors=True)
+    if os.environ.get("SPV_NO_ENVPASS") != "1" and not os.environ.get("SPV_ENVPASS"):
+        environment_pass(prop, seed, ctx)
     if prop in SUITE_PROPS and os.environ.get("SPV_NO_SUITE") != "1":
         from spverif.core.suite import run_suite_under_contracts
         run_suite_under_contracts(ctx)
